@@ -39,8 +39,12 @@ class ComparamInstance:
             value = odxrequire(et_element.findtext("VALUE"))
         elif et_element.find("SIMPLE-VALUE") is not None:
             value = odxrequire(et_element.findtext("SIMPLE-VALUE"))
+        elif (complex_value_elem := et_element.find("COMPLEX-VALUE")) is not None:
+            value = create_complex_value_from_et(complex_value_elem)
         else:
-            value = create_complex_value_from_et(odxrequire(et_element.find("COMPLEX-VALUE")))
+            # no value specified: use the default value of the
+            # communication parameter
+            value = ""
 
         description = Description.from_et(et_element.find("DESC"), doc_frags)
 
@@ -105,6 +109,10 @@ class ComparamInstance:
             odxraise()
 
         value_list = self.value
+        if not value_list:
+            # no values specified: use the default values of the
+            # sub-parameters
+            value_list = []
         if not isinstance(value_list, list):
             warnings.warn(
                 f"The values of complex communication parameter "
